@@ -5,6 +5,7 @@ NM = "src/allmydata/nodemaker.py"
 UN = "src/allmydata/unknown.py"
 MF = "src/allmydata/mutable/filenode.py"
 IF = "src/allmydata/immutable/filenode.py"
+HU = "src/allmydata/util/hashutil.py"
 
 MUTANTS = [
     # ---- C18.1 decrypt only when writeable
@@ -92,6 +93,34 @@ MUTANTS = [
     M("get-writekey-falls-back-to-readkey", MF,
       "    def get_writekey(self):\n        return self._writekey\n    def get_readkey(self):",
       "    def get_writekey(self):\n        return self._writekey or self._readkey\n    def get_readkey(self):", "C18.6"),
+    # ---- C18.7 one key stream per child
+    M("salt-from-writekey", D,
+      "    salt = hashutil.mutable_rwcap_salt_hash(rw_uri)\n",
+      "    salt = hashutil.mutable_rwcap_salt_hash(writekey)\n", "C18.7",
+      note="seeded C18-B: the salt follows the misleading parameter name of the hashutil helper"),
+    M("key-hash-with-fixed-iv", D,
+      "    key = hashutil.mutable_rwcap_key_hash(salt, writekey)\n",
+      "    key = hashutil.mutable_rwcap_key_hash(b\"\", writekey)\n", "C18.7",
+      note="salt still emitted, but the key no longer mixes it in: one key per directory"),
+    M("salt-per-directory-random-free", D,
+      "    salt = hashutil.mutable_rwcap_salt_hash(rw_uri)\n",
+      "    salt = hashutil.tagged_hash(hashutil.DIRNODE_CHILD_SALT_TAG, writekey, hashutil.IVLEN)\n", "C18.7"),
+    M("salt-hash-forgets-update", HU,
+      "def mutable_rwcap_salt_hash(writekey):\n    return tagged_hash(DIRNODE_CHILD_SALT_TAG, writekey, IVLEN)\n",
+      "def mutable_rwcap_salt_hash(writekey):\n    return tagged_hasher(DIRNODE_CHILD_SALT_TAG, IVLEN).digest()\n",
+      "C18.7", note="same effect one level down: the helper ignores its argument"),
+    M("pair-hash-drops-first-value", HU,
+      "    s.update(netstring(tag))\n    s.update(netstring(val1))\n    s.update(netstring(val2))\n",
+      "    s.update(netstring(tag))\n    s.update(netstring(val2))\n", "C18.7",
+      note="two levels down: the key hash no longer mixes in the salt"),
+    M("pair-hash-drops-second-value", HU,
+      "    s.update(netstring(tag))\n    s.update(netstring(val1))\n    s.update(netstring(val2))\n",
+      "    s.update(netstring(tag))\n    s.update(netstring(val1))\n", "C18.7",
+      note="the key stream no longer depends on the writekey"),
+    M("salt-is-cap-prefix", HU,
+      "def mutable_rwcap_salt_hash(writekey):\n    return tagged_hash(DIRNODE_CHILD_SALT_TAG, writekey, IVLEN)\n",
+      "def mutable_rwcap_salt_hash(writekey):\n    return writekey[:IVLEN]\n", "C18.7",
+      note="unique per child, but the clear-text salt now shows 16 bytes of the write cap"),
     # ---- benign
     M("benign-readonly-local", D,
       "        writeable = not self.is_readonly()\n", "        readonly = self.is_readonly()\n", None,
@@ -115,6 +144,30 @@ MUTANTS = [
       "            if writekey is None:\n                writecap = ZERO_LEN_NETSTR\n"
       "            else:\n                sealed = _encrypt_rw_uri(writekey, rw_uri)\n                writecap = netstring(sealed)\n",
       None),
+    M("benign-salt-hash-param-renamed", HU,
+      "def mutable_rwcap_salt_hash(writekey):\n    return tagged_hash(DIRNODE_CHILD_SALT_TAG, writekey, IVLEN)\n",
+      "def mutable_rwcap_salt_hash(rw_uri):\n    return tagged_hash(DIRNODE_CHILD_SALT_TAG, rw_uri, IVLEN)\n", None),
+    M("benign-salt-hash-explicit-hasher", HU,
+      "def mutable_rwcap_salt_hash(writekey):\n    return tagged_hash(DIRNODE_CHILD_SALT_TAG, writekey, IVLEN)\n",
+      "def mutable_rwcap_salt_hash(writekey):\n    h = tagged_hasher(DIRNODE_CHILD_SALT_TAG, IVLEN)\n"
+      "    h.update(writekey)\n    return h.digest()\n", None),
+    M("benign-salt-inlined-tagged-hash", D,
+      "    salt = hashutil.mutable_rwcap_salt_hash(rw_uri)\n",
+      "    salt = hashutil.tagged_hash(hashutil.DIRNODE_CHILD_SALT_TAG, rw_uri, hashutil.IVLEN)\n", None),
+    M("benign-encrypt-locals-renamed", D,
+      "    salt = hashutil.mutable_rwcap_salt_hash(rw_uri)\n"
+      "    key = hashutil.mutable_rwcap_key_hash(salt, writekey)\n"
+      "    encryptor = aes.create_encryptor(key)\n"
+      "    crypttext = aes.encrypt_data(encryptor, rw_uri)\n"
+      "    mac = hashutil.hmac(key, salt + crypttext)\n"
+      "    assert len(mac) == 32\n"
+      "    return salt + crypttext + mac\n",
+      "    child_salt = hashutil.mutable_rwcap_salt_hash(rw_uri)\n"
+      "    child_key = hashutil.mutable_rwcap_key_hash(child_salt, writekey)\n"
+      "    crypttext = aes.encrypt_data(aes.create_encryptor(child_key, iv=None), rw_uri)\n"
+      "    mac = hashutil.hmac(child_key, child_salt + crypttext)\n"
+      "    assert len(mac) == 32\n"
+      "    return child_salt + crypttext + mac\n", None),
     # ---- vanished anchor
     M("vanish-decrypt", D,
       "    def _decrypt_rwcapdata(self, encwrcap):", "    def _decrypt_rwcapdataX(self, encwrcap):", "ANALYSIS-ERROR"),
